@@ -19,6 +19,7 @@ RULE = ("scenarios = 1-5 programs in 1-5 groups with random policies x scripts o
 def run(ctx):
     extra = [l2common.burst_scenario(ctx.rng)]
     l2common.run_all(ctx, l2common.scenarios(ctx, 1000, 20000, extra=extra), [l2.mon_c02, l2.mon_c06])
+    l2common.run_all(ctx, [l2.unknown_scenario(ctx.rng) for _ in range(ctx.n(150, 3000))], [l2.mon_c02, l2.mon_c06])
 
 
 def replay(ctx, data):
